@@ -144,6 +144,15 @@ def run(tier, seed, replay=None):
 
     for prof in profiles:
         impl = jsn.Impl(prof)
+        if replay and "made_in_between" in r:
+            mb = r["made_in_between"]
+            impl.ask("PKGNEW %d [%s]" % (mb["price"], ",".join(mb["orders"])))
+            v0 = impl.ask("RESTORE " + r["text_hex"])
+            evals += 1
+            if not v0.startswith("ok "):
+                judge_bad.append(dict(r, answer=v0[:300], profile=prof))
+            impl.close()
+            continue
         # ---- (i) encodings + judge: from_str(to_string(v)) == v on the implementation
         for ty, vals in cases.items():
             enc_i = impl.ask_many(["TOJSON %s %s" % (ty, v) for v in vals])
@@ -210,15 +219,41 @@ def run(tier, seed, replay=None):
 
         # ---- (iii) a package produced by the implementation validates after the trip
         n_pk = 40 if quick else 300
+        earlier = None          # (package value, text) made before the current one: re-read later, after other packages
+        twin_of = None
         for _ in range(0 if replay else n_pk):
-            price = jsn.rq(rng)
-            orders = jsn.rlevel_orders(rng, rng.choice([0, 1, 2, 4]))
+            if twin_of is not None and twin_of[1] and rng.random() < 0.5:
+                # a different level with the SAME price, totals and order count (one order re-stamped / re-identified)
+                price, orders = twin_of[0], list(twin_of[1])
+                j = rng.randrange(len(orders))
+                f = orders[j].split(":")
+                if rng.random() < 0.5:
+                    f[4] = str((int(f[4]) + 1) % (1 << 64))
+                else:
+                    f[1] = ("l" if f[1][0] == "u" else "u") + f[1][1:]
+                orders[j] = ":".join(f)
+            else:
+                price = jsn.rq(rng)
+                orders = jsn.rlevel_orders(rng, rng.choice([0, 1, 2, 4]))
+            twin_of = (price, orders)
             a = impl.ask("PKGNEW %d [%s]" % (price, ",".join(orders)))
             evals += 1
             if not a.startswith("ok "):
                 judge_bad.append(dict(type="package", value=orders, why="snapshot_package failed: " + a, profile=prof))
                 continue
             pkg, t1, t2, payload = a[3:].split(" ")
+            # the package made BEFORE this one is read back only now (other packages were made and validated in between)
+            if earlier is not None:
+                # (RESTORE = PriceLevel::from_snapshot_json on the text: the path that validates without building any other package)
+                v0 = impl.ask("RESTORE " + earlier[1])       # first thing after the other package was made
+                back0 = impl.ask("OFJSON package " + earlier[1])
+                if v0.startswith("ok "):
+                    v0 = impl.ask("PKGEDIT " + back0[3:]) if back0.startswith("ok ") else back0
+                evals += 1
+                if back0 != "ok " + earlier[0] or not v0.startswith("validate=ok "):
+                    judge_bad.append(dict(type="package", text_hex=earlier[1], answer=v0[:300], read_back=back0[:300], profile=prof,
+                                          made_in_between=dict(price=price, orders=orders),
+                                          why="a package read back after other packages were made no longer validates (or differs)"))
             back = impl.ask("OFJSON package " + t1)
             mback = model.ask("OFJSON package " + t1)
             if back != mback:
@@ -235,6 +270,7 @@ def run(tier, seed, replay=None):
             if not v.startswith("validate=ok "):
                 judge_bad.append(dict(type="package", text_hex=t1, answer=v, profile=prof,
                                       why="the package no longer validates after the JSON trip"))
+            earlier = (pkg, t1)
 
         # ---- (ii) deserialisation verdicts on re-spaced texts and AST mutants
         mut_cases = []
